@@ -83,13 +83,35 @@ def check(ctx):
     env = {"self": me}
     calls = [n for n in own_nodes(fn) if isinstance(n, ast.Assign) and isinstance(n.value, ast.Call)
              and norm(n.value.func) == "self.adaptive_euler_step"]
-    if len(calls) != 1 or not isinstance(calls[0].targets[0], ast.Tuple) or len(calls[0].targets[0].elts) != 3 or len(calls[0].value.args) < 3:
-        raise AnalysisError("update() no longer has `psi, abs_sq_psi, dt = self.adaptive_euler_step(step, psi, old_sq_psi, ...)`")
-    tg = calls[0].targets[0].elts
-    env[norm(tg[1])] = a2
-    env[norm(tg[2])] = dt
-    env[norm(calls[0].value.args[2])] = old
-    env[norm(calls[0].value.args[0])] = T.real("step")
+    if len(calls) == 1 and isinstance(calls[0].targets[0], ast.Tuple) and len(calls[0].targets[0].elts) == 3 and len(calls[0].value.args) >= 3 \
+            and all(isinstance(x, ast.Name) for x in calls[0].targets[0].elts[1:]) and isinstance(calls[0].value.args[2], ast.Name):
+        tg = calls[0].targets[0].elts
+        roles = {"new": norm(tg[1]), "dt": norm(tg[2]), "old": norm(calls[0].value.args[2]), "step": norm(calls[0].value.args[0])}
+    else:
+        # the psi solve is reached through helpers: the roles are read off one followed update (pvs/update_trace.py) - which locals of
+        # update() hold what the last adaptive_euler_step returned and what it was handed
+        from ..update_trace import scenarios as _scn, trace_update
+        from ..smallstep import Opaque as _SO
+        sc_ = next(x for x in _scn() if x["adaptive"] == "on" and not x["screening"] and x["dynamic_A"] == "off" and not x["dynamic_epsilon"] and not x["probes"])
+        tr_ = trace_update(repo, sc_)
+        evs_ = tr_.calls("adaptive_euler_step")
+        if tr_.outcome[0] != "return" or not evs_ or len(evs_[-1].args) < 3:
+            raise AnalysisError("update() does not reach adaptive_euler_step(step, psi, old_sq_psi, ...) in the model")
+        k_ = len(evs_) - 1
+
+        def holder(val):
+            names_ = [n_ for n_, v_ in tr_.env.items() if isinstance(n_, str) and n_.isidentifier() and type(v_) is type(val) and v_ == val]
+            used_ = {x.id for x in ast.walk(blk) if isinstance(x, ast.Name) and isinstance(x.ctx, ast.Load)}
+            if len(names_) != 1:
+                names_ = [n_ for n_ in names_ if n_ in used_]       # the one the rule block reads
+            if len(names_) != 1:
+                raise AnalysisError(f"the locals of update() that hold {val!r} after the psi solve: {names_}")
+            return names_[0]
+        roles = {"new": holder(_SO(f"sq#{k_}")), "dt": holder(_SO(f"dt#{k_}")), "old": holder(evs_[-1].args[2]), "step": holder(evs_[-1].args[0])}
+    env[roles["new"]] = a2
+    env[roles["dt"]] = dt
+    env[roles["old"]] = old
+    env[roles["step"]] = T.real("step")
     for n in own_nodes(fn):
         if isinstance(n, ast.Assign) and len(n.targets) == 1 and isinstance(n.targets[0], ast.Name):
             if norm(n.value) == "self.options":
